@@ -36,6 +36,19 @@ for d in sorted(glob.glob('/verif/mutants/C*')):
                     for line in open(f'{d}/{agg}'):
                         if n.split('-')[0] + '-' in line or n in line:
                             res = line
+        if res is None:
+            # execsim mutants keep their verdict in the header of the patch file
+            for ext in ('.patch', '.diff'):
+                fp = f'{d}/{n}{ext}'
+                if os.path.exists(fp):
+                    head = open(fp).read().split('\n')
+                    m = re.match(r'# mutant .*: (CAUGHT|MISSED|HARNESS-TROUBLE[^ ]*)', head[0]) if head else None
+                    if m:
+                        res = m.group(1)
+                        note = ' '.join(l[2:].strip() for l in head[1:6] if l.startswith('# NOTE') or (res == 'MISSED' and l.startswith('#') and 'applied on top' not in l and not l.startswith('#   ')))
+                        if note and res == 'MISSED':
+                            res = 'MISSED\n'; extra_note = note
+                            NOTES.setdefault((prop, n), note.replace('NOTE: ', ''))
         v = verdict_of(res) if res else 'no result file (see engine report in DESIGN.md 12)'
         if (prop, n) in NOTES: v += ' — ' + NOTES[(prop, n)]
         rows.append((prop, n, v))
@@ -85,4 +98,4 @@ for d in sorted(glob.glob('/verif/seeded/*/')):
 with open('/verif/seeded/SUMMARY.md', 'w') as f:
     f.write('# Independently seeded changes (written by fresh sub-agents that saw only the property text)\n\n| id | our quick checks | note | what it breaks |\n|---|---|---|---|\n')
     for r in srows: f.write('| %s | %s | %s | %s |\n' % r)
-print(len(rows), 'mutants;', len(srows), 'seeded')
+print(len(srows), 'seeded')
